@@ -589,6 +589,23 @@ def fam_C03(rng, tier):
         for k in range(4 if tier == 'quick' else 30):
             variants.append((f'rand{k}', None, lambda d: sorted(rng.sample(range(1, len(d)), min(rng.choice([2, 5, 17]), len(d) - 1)))))
         group(f'c03-g{gi}', mk, variants)
+    # the hand-off from connect() to run(): bytes of the packets that FOLLOW the CONNACK arrive in the same read(s) as
+    # the CONNACK (a broker resuming a session sends CONNACK and queued packets in one segment), before run() is called
+    ca = m.connack(0, 0, [])
+    rest = [m.publish(b'a', b'q1', 1, 7, 0, 0, []), m.ack('pubrel', 9), m.pingresp(),
+            m.publish(b'a', bytes(200), 2, 8, 0, 0, []), m.disconnect(0, [])]
+    data = ca + b''.join(rest)
+
+    def hs(vname, lines):
+        out.append((f'c03-handoff#{vname}', ['SETUP', 'CONNECT cid=63'] + lines))
+    hs('whole', [m.feed(ca), 'RUN'] + [m.feed(p) for p in rest])
+    hs('oneread', [m.feed(data), 'RUN'])
+    hs('oneread-late', [m.feed(ca + rest[0][:3]), 'RUN', m.feed(rest[0][3:] + b''.join(rest[1:]))])
+    cuts = list(range(1, min(len(data), 40))) + ([] if tier == 'quick' else list(range(40, len(data), 7)))
+    for c in cuts:
+        hs(f'cut{c}-before', [m.feed(data, [c]), 'RUN'])
+        if c >= len(ca):
+            hs(f'cut{c}-around', [m.feed(data[:c]), 'RUN', m.feed(data[c:])])
     # streams whose packet boundaries and read sizes fall exactly on the receive buffer's steps (512 / 1024 bytes):
     # a read that fills the offered buffer exactly, with nothing (yet) behind it
     def sized_publish(total, sid, qos=0, pid=None):
@@ -898,7 +915,7 @@ class Walk:
         elif k == 'inbound':
             self.inbound()
         elif k == 'pubrel':
-            pid = rng.choice(sorted(self.inq2)) if self.inq2 and rng.random() < 0.8 else rng.choice([1, 2, 3])
+            pid = rng.choice(sorted(self.inq2)) if self.inq2 and rng.random() < 0.8 else rng.choice([1, 2, 3, 256, 65535])
             self.inq2.discard(pid)
             # every form of PUBREL releases the identifier: short, with reason 0x00 / 0x92, with properties
             form = rng.choice(['id', 'id', 'r0', 'r92', 'full0', 'full92'])
@@ -951,7 +968,7 @@ class Walk:
     def inbound(self):
         rng, s = self.rng, self.s
         qos = rng.choice([0, 1, 2])
-        pid = rng.choice([1, 2, 3]) if qos else None
+        pid = rng.choice([1, 2, 3, 1, 2, 3, 255, 256, 65534, 65535]) if qos else None
         # inbound and outbound identifiers are separate number spaces: make them collide on purpose
         live = sorted({d['pid'] for d in s.live_ops.values() if d.get('pid')})
         if qos and live and rng.random() < 0.5:
@@ -1093,6 +1110,42 @@ def fam_C05(rng, tier):
                     else:
                         s.feed(m.pingresp())
                 out.append(s.script())
+    # an old operation stays outstanding while `gap` others complete; then one whose identifier is `gap` higher is
+    # acknowledged FIRST, with an error only it may see (identifiers congruent modulo 256 for gap = 256, ...)
+    for gap in ([256] if q else [128, 255, 256, 257, 512, 4096]):
+        for kind in ['pub1', 'pub2', 'sub', 'unsub']:
+            s = Sess(f'c05-alias-{gap}-{kind}')
+            s.connect()
+
+            def issue():
+                if kind == 'pub1':
+                    o, p = s.publish(1); return o, 'puback', p
+                if kind == 'pub2':
+                    o, p = s.publish(2); return o, 'pubrec', p
+                if kind == 'sub':
+                    o, p, _ = s.subscribe(); return o, 'suback', p
+                o, p = s.unsubscribe(); return o, 'unsuback', p
+
+            def answer(x, bad=False):
+                o, k2, p = x
+                if k2 == 'puback':
+                    s.feed(m.ack('puback', p, 0x97 if bad else 0, [(31, b'for-' + str(p).encode())] if bad else None))
+                elif k2 == 'pubrec':
+                    s.feed(m.ack('pubrec', p, 0x97 if bad else 0, [(31, b'for-' + str(p).encode())] if bad else None))
+                    if not bad:
+                        s.feed(m.ack('pubcomp', p))
+                elif k2 == 'suback':
+                    s.feed(m.suback(p, [0x80 if bad else 0], [(31, b'for-' + str(p).encode())]))
+                else:
+                    s.feed(m.unsuback(p, [0x80 if bad else 0], [(31, b'for-' + str(p).encode())]))
+            old_op = issue()
+            for _ in range(gap - 1):
+                o, p = s.publish(1)
+                s.feed(m.ack('puback', p))
+            young = issue()
+            answer(young, bad=True)
+            answer(old_op)
+            out.append(s.script())
     # exhaustive: every acknowledgement order for a fixed set of concurrent operations
     base = [('pub1', None), ('pub2', None), ('sub', None), ('unsub', None), ('ping', None), ('ping', None)]
     perms = list(itertools.permutations(range(5)))
@@ -1182,6 +1235,14 @@ def fam_C06(rng, tier):
                     out.append(s.script())
     out += fam_walk(rng, tier, 'c06-walk', 40 if tier == 'quick' else 1000, lambda r: r.choice([20, 60]),
                     weights=dict(sub=0, unsub=0, ping=1, inbound=0, pubrel=0, stream=0), allow_poll=True, batch=0.15)
+    # "QoS 0 completes once written": the write of the PUBLISH fails at every offset / is accepted slowly
+    for qos in [0, 1, 2]:
+        for cfg in ['werr=%d' % k for k in range(16, 28)] + ['wr=one', 'wr=pend', 'wr=pendone', 'wzero=20']:
+            s = Sess(f'c06-w-{qos}-{cfg}', cfg)
+            s.connect()                                  # CONNECT is 16 bytes; the PUBLISH below 9..11 bytes
+            op, pid = s.publish(qos, fields=[('p', b'xy')], topic=b'a')
+            s.publish(0, fields=[('p', b'z')], topic=b'a')
+            out.append(s.script())
     # the send quota is EXACTLY used up when the PUBREL of a QoS 2 exchange is submitted (Receive Maximum 1; or other
     # publishes take the remaining slots between the PUBREC and the delayed poll of the QoS 2 future)
     for R in [1, 2, 3]:
@@ -1322,6 +1383,29 @@ def fam_C09(rng, tier):
                     else:
                         s.feed(m.ack('pubcomp', e[1])); pend.pop(0)
             out.append(s.script())
+    # a QoS 2 message for two subscriptions, one of whose streams was dropped, re-delivered before its PUBREL
+    for order in [0, 1]:
+        for dropped in ['stream', 'rsp', 'none']:
+            for dup in [0, 1]:
+                s = Sess(f'c09-sibling-{order}-{dropped}-{dup}')
+                s.connect()
+                op1, sid1 = s.subscribed_stream()
+                op2, pid2, sid2 = s.subscribe([(b'a/#', '2000')])
+                s.feed(m.suback(pid2, [0]))
+                s.live_ops.pop(op2, None)
+                if dropped == 'stream':
+                    s.add(f'STREAM {op2}')
+                    s.add(f'DROP st{op2}')
+                elif dropped == 'rsp':
+                    s.add(f'DROP rsp{op2}')
+                else:
+                    s.add(f'STREAM {op2}')
+                ids = [(11, sid1), (11, sid2)] if order == 0 else [(11, sid2), (11, sid1)]
+                s.feed(m.publish(b'a', b'm1', 2, 7, 0, 0, ids))
+                s.feed(m.publish(b'a', b'm1', 2, 7, dup, 0, ids))
+                s.feed(m.ack('pubrel', 7))
+                s.feed(m.publish(b'a', b'm2', 2, 7, 0, 0, ids))
+                out.append(s.script())
     out += fam_walk(rng, tier, 'c09-mix', 30 if tier == 'quick' else 1000, 60,
                     weights=dict(pub0=0, pub1=2, pub2=4, sub=1, unsub=0, ping=0, ack=8, inbound=8, pubrel=4, stream=2),
                     subid_modes=['reg'], batch=0.1)
@@ -1375,6 +1459,33 @@ def fam_C10(rng, tier):
                     s.feed(m.ack('puback' if qos == 1 else 'pubrec', p, 0x80 if qos == 2 else 0))
                     s.publish(qos, topic=b'a')                                  # accepted again
                     out.append(s.script())
+    # the quota belongs to the CONNECTION: a second connection of the same Context starts with the Receive Maximum of ITS
+    # CONNACK, whatever was left unacknowledged on the first one
+    for R1, R2 in [(2, 2), (1, 3), (3, 1), (2, None), (None, 2)]:
+        for k in [1, 2]:
+            for how in ['eof', 'sdisc', 'udisc']:
+                s = Sess(f'c10-reconnect-{i}')
+                i += 1
+                s.connect(connack_ps=[(33, R1)] if R1 else [])
+                for _ in range(k):
+                    s.publish(1, topic=b'a')               # left unacknowledged
+                if how == 'eof':
+                    s.add('FEEDEOF')
+                elif how == 'sdisc':
+                    s.feed(m.disconnect(0x8b, []))
+                else:
+                    s.disconnect([('r', 0)])
+                s.add('SETUP')
+                s.add('CONNECT cid=63')
+                s.feed(m.connack(0, 0, [(33, R2)] if R2 else []))
+                s.add('RUN')
+                n2 = R2 if R2 else 4
+                for _ in range(n2):
+                    s.publish(1, topic=b'a')               # all accepted
+                if R2:
+                    s.publish(1, topic=b'a')               # refused
+                s.publish(0, topic=b'a')
+                out.append(s.script())
     if not q:
         # 'big-' scripts are run on the implementation and judged by the oracle only: the list-based Lean model is
         # quadratic in the number of simultaneously outstanding operations
@@ -1488,6 +1599,23 @@ def fam_C12(rng, tier):
                     else:
                         s.disconnect([('r', 4), ('rs', b'bye')])
                     out.append(s.script())
+    # the limit belongs to the CONNECTION: a second connection of the same Context announces another Maximum Packet Size
+    for M1, M2 in [(40, 12), (12, 40), (1, 2), (30, None), (12, None), (1, None), (None, 12), (12, 12)]:
+        for how in ['eof', 'udisc']:
+            s = Sess(f'c12-reconnect-{M1}-{M2}-{how}')
+            s.connect(connack_ps=[(39, M1)] if M1 else [])
+            s.publish(1, fields=[('p', b'0123456789')], topic=b'topic/x')          # 26 bytes
+            s.ping()
+            s.add('FEEDEOF') if how == 'eof' else s.disconnect([('r', 0)])
+            s.add('SETUP')
+            s.add('CONNECT cid=63')
+            s.feed(m.connack(0, 0, [(39, M2)] if M2 else []))
+            s.add('RUN')
+            s.publish(0, fields=[('p', b'0123456789')], topic=b'topic/x')          # 24 bytes
+            s.publish(1, topic=b'a')                                                # 8 bytes
+            s.ping()                                                                # 2 bytes
+            s.subscribe([(b'filter/#', '1101')])
+            out.append(s.script())
     # random traffic under a size limit that the ordinary requests of the walk fit in and the 'pubbig' ones do not
     out += fam_walk(rng, tier, 'c12-walk', 40 if tier == 'quick' else 1500, lambda r: r.choice([15, 40, 80]),
                     max_pkt=64, recv_max=lambda r: r.choice([None, 2, 4]),
